@@ -207,9 +207,10 @@ def handleParse (j : Json) : R Json := do
         | none =>
           let c' ← C01.condOfJson (← fld re "cond")
           let name' ← strF re "name"
-          let wholeKb := r.cutoff % 1000 == 0 && r.neighbourhood % 1000 == 0
+          -- `reparse_printed_rule_any_distance`: the text carries `distance // 1000` kilobases
           if name' != r.name then pure (Json.str "name")
-          else if wholeKb && ((← natF re "cutoff") != r.cutoff || (← natF re "neighbourhood") != r.neighbourhood) then
+          else if (← natF re "cutoff") != r.cutoff / 1000 * 1000
+              || (← natF re "neighbourhood") != r.neighbourhood / 1000 * 1000 then
             pure (Json.str "distance")
           else if !semAgree r.conditions c' then pure (Json.str "meaning")
           else pure (Json.str "ok")
